@@ -135,6 +135,20 @@ def rmwLine (ss : Sess) (i : Nat) (x : RInst) (args : List String) : Sess × Str
     | _, _ => (ss, "bad-op")
   | _, _ => (ss, "bad-op")
 
+/-- `peek <i>` — the persistent layout read from the database below the view: the raw keys of region
+`realm ++ [0]` in the store's order, the size cell `realm ++ [3]`, whether the root cell `realm ++ [2]`
+exists, whether trie records exist in region `realm ++ [1]` (the last `Commit` flushed a non-empty trie). -/
+def peekLine (ss : Sess) (x : RInst) (args : List String) : String :=
+  match ss.db x.db, args with
+  | some db, [] =>
+    let raw := match db (layout.raw x.realm) with | .raw ks => ks | _ => []
+    let size := match db (layout.size x.realm) with | .size n => toString n | _ => "-"
+    let root := match db (layout.root x.realm) with | .root _ => "yes" | _ => "no"
+    let nodes := match db (layout.tree x.realm) with | .tree (_ :: _) => "+" | _ => "0"
+    "peek raw=[" ++ " ".intercalate (raw.map hex) ++ "] size=" ++ size ++ " root=" ++ root ++ " nodes=" ++ nodes
+  | none, _ => "nodb"
+  | _, _ => "bad-op"
+
 /-- Request lines: `opendb <d>` creates a database; `openr <i> <flavour> <d> <realm>` opens instance
 `i` over a realm view of database `d`; `open <i> <flavour>` opens it over a database of its own;
 then `<verb> <i> <args…>` (the flavour only selects the Go type: `add k` is `set k ""`). -/
@@ -163,6 +177,7 @@ def stepLine (ss : Sess) (toks : List String) : Sess × String :=
       | none => (ss, "noinst")
       | some x =>
         if verb == "rmw" then rmwLine ss i x args else
+        if verb == "peek" then (ss, peekLine ss x args) else
         match ss.db x.db, parseOp (verb :: args) with
         | none, _ => (ss, "nodb")
         | _, none => (ss, "bad-op")
